@@ -9,6 +9,7 @@ removed rows, ids around the 1,000,000 limit) go through the same judge.
 import json
 import os
 import random
+import time
 
 import fnspec
 import tlc
@@ -132,24 +133,35 @@ def judge(files, workdir):
   return viol, n, steps, wall
 
 
-def _selftest(workdir):
-  """The binding: a recorded ghost id must be rejected by the trace specification, the same record
-  without the ghost must be accepted."""
-  def obs(ret, after):
-    return {"exc": "", "retk": "ids", "ret": ret, "before": [1], "after": after, "view": after,
-            "again": after, "held": ret, "dig0": 1, "dig1": 2}
-  inp = {"rows": [1], "gone": [], "steps": [{"kind": "BulkAddRecord", "req": [dict(NONE)]}]}
-  good = {"inp": inp, "out": [obs([2], [1, 2])], "exc": ""}
-  p = os.path.join(workdir, "selftest-good.json")
-  json.dump([good], open(p, "w"))
-  res, _ = tlc.validate_shards(TRACE, [p], workdir, parallel=1, xmx="1g")
-  if res:
-    raise tlc.MachineryError("self-test: a correct recorded step was rejected by %s: %r" % (TRACE, res))
+def _selftest(files, viol, workdir):
+  """The binding: take a recorded step that the trace specification accepted (BulkAddRecord served
+  with fresh ids), delete the row of the last returned id from the record (a ghost id) and require
+  that the trace specification now rejects it."""
+  failing = {json.dumps(v["case"]["inp"], sort_keys=True) for v in viol}
+  base = None
+  for f in files:
+    for c in json.load(open(f)):
+      ob = c["out"][0] if c["out"] else None
+      if ob and len(c["out"]) == 1 and c["inp"]["steps"][0]["kind"] == "BulkAddRecord" and \
+         ob["retk"] == "ids" and ob["ret"] and json.dumps(c["inp"], sort_keys=True) not in failing:
+        base = c
+        break
+    if base:
+      break
+  if base is None:       # nothing was served correctly (a badly broken tree): use a synthetic record
+    ob = {"exc": "", "retk": "ids", "ret": [2], "before": [1], "after": [1, 2], "view": [1, 2],
+          "again": [1, 2], "held": [2], "dig0": 1, "dig1": 2}
+    base = {"inp": {"rows": [1], "gone": [], "steps": [{"kind": "BulkAddRecord", "req": [dict(NONE)]}]},
+            "out": [ob], "exc": ""}
+  p = os.path.join(workdir, "selftest-base.json")
+  json.dump([base], open(p, "w"))
 
-  def mutate(_case):
-    bad = json.loads(json.dumps(good))
-    bad["out"][0]["after"] = bad["out"][0]["view"] = bad["out"][0]["again"] = [1]   # id 2 returned, no row
-    return bad
+  def mutate(case):
+    ob = case["out"][0]
+    ghost = ob["ret"][-1]
+    for key in ("after", "view", "again"):
+      ob[key] = [r for r in ob[key] if r != ghost]
+    return case
   if not fnspec.mutation_selftest(TRACE, p, mutate, workdir):
     raise tlc.MachineryError("self-test: a recorded ghost id was accepted by %s" % TRACE)
 
@@ -160,14 +172,16 @@ def run(ctx):
   n1 = sum(1 for h in inputs if len(h["steps"]) == 1)
   ctx.log("TLC enumerated %d histories (%d one-step, %d two-step; %d distinct states)"
           % (len(inputs), n1, len(inputs) - n1, model["distinct"]))
-  # spread the slow histories (ids near 10^6) evenly over the workers
-  random.Random(27).shuffle(inputs)
-  files = fnspec.run_cases(WORKER, inputs, ctx.workdir, nshards=16, tag="enum")
   extra = random_histories(ctx.seed, 3000 if ctx.quick else 30000)
-  files += fnspec.run_cases(WORKER, extra, ctx.workdir, nshards=16, tag="rand")
+  # spread the slow histories (ids near 10^6: the engine grows every column to 10^6 cells) evenly
+  todo = inputs + extra
+  random.Random(27).shuffle(todo)
+  t0 = time.time()
+  files = fnspec.run_cases(WORKER, todo, ctx.workdir, nshards=16)
+  ctx.log("the real engine ran %d histories in %.1fs" % (len(todo), time.time() - t0))
   viol, n, steps, wall = judge(files, ctx.workdir)
-  ctx.log("judged %d histories / %d steps in %.1fs" % (n, steps, wall))
-  _selftest(ctx.workdir)
+  ctx.log("TLC judged %d histories / %d steps in %.1fs" % (n, steps, wall))
+  _selftest(files, viol, ctx.workdir)
   outcomes = {}
   for f in files:
     for c in json.load(open(f)):
